@@ -315,21 +315,31 @@ func c06CheckCommitted(t c06Fataler, d *c06DB, got chash.H256, model kit.OrdMap,
 // c06Call runs one engine call; a panic of the engine is reported with the
 // history that led to it.
 func c06Call(t c06Fataler, ctx, what string, f func() error) {
+	var err error
+	pv, st := c06Try(func() { err = f() })
+	if pv != nil {
+		t.Fatalf("%s: %s panicked: %v\n%s", ctx, what, pv, st)
+	}
+	if err != nil {
+		t.Fatalf("%s: %s: %v", ctx, what, err)
+	}
+}
+
+func c06Try(f func()) (pv any, st string) {
 	defer func() {
 		if r := recover(); r != nil {
-			st := string(debug.Stack())
+			pv = r
+			st = string(debug.Stack())
 			if i := strings.Index(st, "panic("); i >= 0 {
 				st = st[i:]
 			}
 			if len(st) > 1800 {
 				st = st[:1800]
 			}
-			t.Fatalf("%s: %s panicked: %v\n%s", ctx, what, r, st)
 		}
 	}()
-	if err := f(); err != nil {
-		t.Fatalf("%s: %s: %v", ctx, what, err)
-	}
+	f()
+	return nil, ""
 }
 
 type c06Result struct {
